@@ -321,11 +321,14 @@ def run_group(spec, storage, combos, variant=None):  # noqa: C901, PLR0912
                 results = pipeline.map(dict(inputs), run_folder=folder, internal_shapes=ish, parallel=False, storage=storage)
         except Exception as e:  # noqa: BLE001
             fail = (findings.exc_sig(e, phase="map", **pred), f"map failed on {desc}: {type(e).__name__}: {str(e)[:120]}")
-        # ONE inputs dict for all requests of this run (as a caller would hold it): a builder that writes into it changes what
-        # the next request sees
+        # ONE inputs dict for all requests of this run (as a caller would hold it): if a builder writes into it, a LATER request
+        # sees the difference (the two builders then disagree, or an intermediate shows up as a coordinate)
         shared_inputs = dict(inputs)
+        earlier = []
         for li, names in combos:
-            case = {"spec": spec, "storage": storage, "li": li, "outs": names, **({"variant": variant} if variant else {})}
+            case = {"spec": spec, "storage": storage, "li": li, "outs": names, **({"variant": variant} if variant else {}),
+                    **({"earlier": list(earlier)} if earlier else {})}
+            earlier.append([li, names])
             info = {"coords": 0, "zips": 0, "outcome": None, "skipped_subdict": False, "stats": collections.Counter()}
             if fail is not None:
                 yield case, [fail], info
@@ -345,10 +348,6 @@ def run_group(spec, storage, combos, variant=None):  # noqa: C901, PLR0912
                 except Exception as e:  # noqa: BLE001
                     errors[entry] = e
             viol = []
-            if set(shared_inputs) != set(inputs):
-                viol.append(({"kind": "inputs-dict-changed", "li": li}, f"xarray_dataset_from_results(load_intermediate={li}, names={names}) changed the caller's "
-                             f"inputs dict: keys {sorted(shared_inputs)} (were {sorted(inputs)}) on {desc}"))
-                shared_inputs = dict(inputs)
             e1 = errors.get("from_results")
             if (e1 is not None and names is not None and li and isinstance(e1, KeyError) and findings.exc_site(e1) == "map/xarray.py:_data_loader"
                     and e1.args and e1.args[0] in every and e1.args[0] not in req):
@@ -392,9 +391,12 @@ def _describe(ds) -> str:
 
 
 def run_case(case):
-    for _, viol, _ in run_group(case["spec"], case["storage"], [(case["li"], case["outs"])], case.get("variant")):
-        return viol
-    return []
+    # the requests made earlier on the same run (and the same inputs dict) are part of the case: replayed first
+    combos = [(li, outs) for li, outs in case.get("earlier", [])] + [(case["li"], case["outs"])]
+    viol = []
+    for _, viol, _ in run_group(case["spec"], case["storage"], combos, case.get("variant")):
+        pass
+    return viol
 
 
 # ------------------------------------------------------------------------------------------------
